@@ -615,6 +615,9 @@ pub fn trim_element(e: &Element) {
         static ref WHITESPACE_MATCH: Regex = Regex::new(r#"[ \u{0009}\u{000A}\u{000D}]+"#).unwrap();
     }
 
+    // this attribute is MathCAT's own scratch marker (an integer) -- a value supplied by the author must not be mistaken for it
+    e.remove_attribute(crate::chemistry::MAYBE_CHEMISTRY);
+
     if is_leaf(*e) {
         // Assume it is HTML inside of the leaf -- turn the HTML into a string
         make_leaf_element(*e);
